@@ -18,7 +18,7 @@ RULE = ("cases: histories of 1-14 add / remove / replace over a committed pool o
         "from small colliding pools (equal expiries included), idempotent replaces, replaces of absent / unparsable old "
         "fingerprints, unparsable new certificates; SNI probes between the operations and over the whole SNI pool at the "
         "end; a second family exercises the strict-SNI predicate on decorated authorities (port, trailing dot, case, "
-        "IPv6 literal, embedded wildcards). Non-trivial and distinct: >= 2 certificates loaded that share a name, >= 1 "
+        "IPv6 literal, embedded wildcards); a third the legacy exact predicate authority_matches_sni (the server name, its prefixes and extensions, capitals, port and non-port suffixes). Non-trivial and distinct: >= 2 certificates loaded that share a name, >= 1 "
         "removal or replacement of a loaded certificate, and >= 2 distinct probe answers; distinct by op text.")
 ASSUMPTIONS = [
     "PEM/x509/key parsing and SHA-256 are oracles: operations carry the parsed (fingerprint, names, expiration); the driver checks them against the real parser for every pool certificate",
@@ -27,7 +27,7 @@ ASSUMPTIONS = [
     "HashMap-backed store and index are modelled as association lists with unique keys",
     "the rustls handshake (ResolvesServerCert::resolve glue, default certificate), the https.rs listener glue and the 421 call site of the strict-SNI predicate are exercised by the black-box tiers only (real worker, real handshakes, H1 and H2 requests, counting backend), not by proof",
 ]
-TRUSTED = ["translator props/c17.py:translate reads (by meaning: locals free, comments ignored) the sort direction, the last() choice, the re-pointing, the two short-circuits, the name normalisation and the add-before-remove order in lib/src/tls.rs; unrecognised constructs fall back on the correspondence run (TRANSLATE_FALLBACK), except add-before-remove which nothing observes"]
+TRUSTED = ["translator props/c17.py:translate reads (by meaning: locals free, comments ignored) the sort direction, the last() choice, the re-pointing, the two short-circuits, the name normalisation and the add-before-remove order in lib/src/tls.rs, and the four parts of the strict-SNI decision in mux/router.rs route_from_request (guard on server name + strict_sni_binding, names -> authority_matched_cert_name, no names -> authority_matches_sni, nothing matched -> SniAuthorityMismatch; hard); unrecognised constructs fall back on the correspondence run (TRANSLATE_FALLBACK), except add-before-remove which nothing observes"]
 
 MAN = os.path.join(vlib.ROOT, "corpus", "certs", "c17", "manifest.json")
 
@@ -85,6 +85,27 @@ def translate():
     F(fails, tf, "tls.rs TryFrom<&AddCertificate>", "names are kept in their idna ASCII form, lower-cased when idna refuses them", r"idna::domain_to_ascii\(",
       [r"idna::domain_to_ascii\(&?%(W)s\)\s*\.unwrap_or_else\(\|_\|\s*%(W)s\.to_ascii_lowercase\(\)\)",
        r"match\s+(::)?idna::domain_to_ascii\(&?%(W)s\)\s*\{\s*Ok\((%(W)s)\)\s*=>\s*\2,\s*Err\(_\)\s*=>\s*%(W)s\.to_ascii_lowercase\(\)"], 1)
+    # the strict-SNI decision at the call site (model: strict_decision).  The in-process driver executes the two
+    # predicates, not route_from_request itself (the strict-SNI black-box tier does, through a real worker), so these
+    # are hard: not found = failure.
+    try:
+        rt = TU.strip(open(os.path.join(vlib.REPO, "lib/src/protocol/mux/router.rs")).read())
+    except OSError as ex:
+        return fails + ["lib/src/protocol/mux/router.rs cannot be read: %r" % (ex,)]
+    rfr = TU.fn_body(rt, "route_from_request")
+    F(fails, rfr, "mux/router.rs route_from_request", "the check is made only with a server name AND strict_sni_binding", r"strict_sni_binding",
+      [r"tls_server_name\s*\.as_deref\(\)\s*\.filter\(\|_\|\s*context\.strict_sni_binding\)",
+       r"if\s+context\.strict_sni_binding\s*\{\s*if let Some\(%(W)s\)\s*=\s*context\s*\.tls_server_name\s*\.as_deref\(\)",
+       r"if let \(true, Some\(%(W)s\)\)\s*=\s*\(context\.strict_sni_binding,\s*context\s*\.tls_server_name\s*\.as_deref\(\)\)"], 1)
+    F(fails, rfr, "mux/router.rs route_from_request", "with recorded certificate names the authority must be covered by one of them",
+      r"authority_matched_cert_name\(", [r"Some\((%(W)s)\)\s*=>\s*authority_matched_cert_name\(host,\s*\1\)",
+                                        r"if let Some\((%(W)s)\)\s*=\s*context\.tls_cert_names\.as_deref\(\)\s*\{\s*authority_matched_cert_name\(host,\s*\1\)"], 1)
+    F(fails, rfr, "mux/router.rs route_from_request", "without recorded names the authority must be the server name (authority_matches_sni), else nothing matched",
+      r"None\s*=>\s*\{?\s*(if\s+)?authority_matches_sni\(|else\s*\{\s*(if\s+)?authority_matches_sni\(",
+      [r"if\s+authority_matches_sni\(host,\s*(%(W)s)\)\s*\{\s*Some\(\1\)\s*\}\s*else\s*\{\s*None\s*\}",
+       r"authority_matches_sni\(host,\s*(%(W)s)\)\.then_some\(\1\)"], 1)
+    F(fails, rfr, "mux/router.rs route_from_request", "nothing matched = the request is refused (SniAuthorityMismatch, answered 421)",
+      r"SniAuthorityMismatch", [r"None\s*=>\s*\{.*?return Err\(RetrieveClusterError::SniAuthorityMismatch", r"let Some\(%(W)s\)\s*=\s*%(W)s\s*else\s*\{.*?return Err\(RetrieveClusterError::SniAuthorityMismatch"], 1)
     # NOT observable (both orders reach the same final state): add-before-remove inside replace_certificate. Read by
     # position of the two calls (public method names); hard when it cannot be read.
     if rep is not None:
@@ -197,6 +218,24 @@ def auth_case(rng, cid):
     return Case(cid, ops, dict(family="auth"))
 
 
+AUTHSNI_HOSTS = AUTH_HOSTS + [b"a.co", b"a.com.evil.org", b"a.comx", b"xa.com", b"A.COM", b"[::1]:8443", b"[::1"]
+AUTHSNI_SNIS = [b"a.com", b"x.a.com", b"b.com", b"a.co", b"a.com.evil.org", b"[::1]", b"", b"com", b"a.com.", b"x.y.a.com", b"A.com"]
+
+
+def authsni_case(rng, cid):
+    """the legacy exact predicate: authorities that are the server name, a prefix of it, an extension of it, in
+    capitals, with a port / a non-port suffix"""
+    ops = []
+    for _ in range(rng.randint(6, 16)):
+        sni = rng.choice(AUTHSNI_SNIS)
+        if rng.random() < 0.5:
+            base = rng.choice([sni, sni.upper(), sni[:-1], sni + b"x", sni + b".evil.org", sni[1:]])
+        else:
+            base = rng.choice(AUTHSNI_HOSTS)
+        ops.append(["authsni", base + rng.choice(AUTH_DECOR), sni])
+    return Case(cid, ops, dict(family="authsni"))
+
+
 def gen_cases(rng, tier):
     n = {"quick": 1600, "thorough": 40000, "search": 12000}.get(tier, 1600)
     out = []
@@ -208,8 +247,10 @@ def gen_cases(rng, tier):
             out.append(history_case(rng, "o%d" % i, "odd"))
         elif r < 8:
             out.append(history_case(rng, ("c%d" if i % 20 < 10 else "i%d") % i, "case" if i % 20 < 10 else "idn"))
-        else:
+        elif r < 9 or i % 20 < 10:
             out.append(auth_case(rng, "a%d" % i))
+        else:
+            out.append(authsni_case(rng, "s%d" % i))
     return out
 
 
@@ -242,7 +283,7 @@ def strict_sni_case(rng, cid):
 def extra_stage(tier, rng, work):
     """black-box tier: the same histories through a real worker (command channel) and real TLS handshakes"""
     n = {"quick": 60, "thorough": 1500}.get(tier, 60)
-    cases = corpus_cases() + [history_case(rng, "bb%d" % i, ("plain", "case", "idn", "plain")[i % 4]) for i in range(n)]
+    cases = [c for c in corpus_cases() if not all(op[0] in ("auth", "authsni") for op in c.ops)] + [history_case(rng, "bb%d" % i, ("plain", "case", "idn", "plain")[i % 4]) for i in range(n)]
     outs, problems = vlib.run_harness("c17bb", cases, os.path.join(work, "bb"), "release", shards=4, timeout=1200)
     viols, handshakes, missing = [], 0, 0
     for c in cases:
@@ -301,6 +342,8 @@ def corpus_cases():
 
 
 def nontrivial(case, o):
+    if case.ops and case.ops[0][0] == "authsni":
+        return len({tuple(ob[:1]) for ob in o["obs"]}) >= 2
     if case.ops and case.ops[0][0] == "auth":
         return len({tuple(ob[:1]) for ob in o["obs"]}) >= 2 and len(case.ops) >= 6
     names = {}
